@@ -70,7 +70,13 @@ func (k Keeper) LiquidateVaults(ctx sdk.Context, offsetCounterId uint64) error {
 		})
 	}
 
-	liquidationOffsetHolder.CurrentOffset = uint64(end)
+	// the vaults seized in this batch have left the list and the ones behind them have moved up by as many
+	// places: the next batch starts that much earlier, or it would skip them
+	next := end - (lengthOfVaults - len(k.vault.GetVaults(ctx)))
+	if next < start {
+		next = start
+	}
+	liquidationOffsetHolder.CurrentOffset = uint64(next)
 	liquidationOffsetHolder.AppId = offsetCounterId
 	k.SetLiquidationOffsetHolder(ctx, types.VaultLiquidationsOffsetPrefix, liquidationOffsetHolder)
 
